@@ -66,6 +66,7 @@ type FSModel struct {
 	// with an explicit permission argument (OpenFile, WriteFile, Create) the run forks over
 	// {022, 027, 077} (once per path). Chmod is not subject to the umask; CreateTemp creates
 	// 0600 whatever the umask. Without ExploreUmask the umask is 022.
+	Env          map[string]value // environment variables read so far (symbolic values)
 	ExploreUmask bool
 	umask        int // -1: not chosen yet
 	UmaskUsed    bool
@@ -556,6 +557,38 @@ func InstallFSStubs(e *Engine, srcRoot string) {
 		}
 		return tuple{m.Home, iface{}}
 	}
+	// environment variables other than HOME are arbitrary: one symbolic string per name and
+	// path (set or unset is part of the value: "" = unset or empty)
+	envOf := func(ps *PathState, name value) value {
+		m := model(ps)
+		n, ok := name.(string)
+		if !ok {
+			panic(unsupported{"os.Getenv of a symbolic name"})
+		}
+		if n == "HOME" {
+			return m.Home
+		}
+		if m.Env == nil {
+			m.Env = map[string]value{}
+		}
+		if v, ok := m.Env[n]; ok {
+			return v
+		}
+		v := value(ps.Fresh(SString, "env_"+n))
+		m.Env[n] = v
+		m.event("getenv", n, nil, "")
+		return v
+	}
+	ic["os.Getenv"] = func(ps *PathState, fr *frame, fn *ssa.Function, args []value) value {
+		return envOf(ps, args[0])
+	}
+	ic["os.LookupEnv"] = func(ps *PathState, fr *frame, fn *ssa.Function, args []value) value {
+		v := envOf(ps, args[0])
+		if ps.Choice(2, "lookupenv") == 0 {
+			return tuple{"", false}
+		}
+		return tuple{v, true}
+	}
 	ic["os.Getwd"] = func(ps *PathState, fr *frame, fn *ssa.Function, args []value) value {
 		return tuple{model(ps).Cwd, iface{}}
 	}
@@ -728,6 +761,32 @@ func JoinPath(parts ...value) value { return joinPath(parts) }
 func (m *FSModel) SetPrior(path value, data []byte, mode uint32) {
 	m.Prior[pathKey(path)] = &FSNode{Content: "full:" + hashBytes(data), Mode: mode, Data: data}
 	m.PathVals[pathKey(path)] = path
+}
+
+// Snapshot returns the files the run leaves behind (written, and prior ones neither replaced
+// nor removed), keyed by path.
+func (m *FSModel) Snapshot() map[string]FSNode {
+	out := map[string]FSNode{}
+	for k, n := range m.Prior {
+		if !m.Removed[k] {
+			out[k] = *n
+		}
+	}
+	for k, n := range m.Nodes {
+		out[k] = *n
+	}
+	return out
+}
+
+// SetPriorNode registers a file left behind by an earlier run.
+func (m *FSModel) SetPriorNode(path string, n FSNode) {
+	cp := n
+	cp.stale = false
+	if cp.Data == nil {
+		cp.Data = []byte(cp.Content)
+	}
+	m.Prior[path] = &cp
+	m.PathVals[path] = path
 }
 
 // Effective returns the file at path after the run (written or prior).
